@@ -130,6 +130,7 @@ func verif_C05_chunks() {
 	}
 	c := newConn(vc, s)
 	err := s.handleConn(c)
+	verifSettle()
 	reps, wf := verifParseReplies(vc.out)
 	verifObserve("c05c", nch, seg, all, got, wf, len(reps), rerr == io.EOF)
 	verifAssert(err == nil && lg.lines == 0, "C05.chunks-clean")
